@@ -106,7 +106,7 @@ def main():
                 if a.prop is None or m["prop"] == a.prop:
                     jobs.append((m, a.extract, benign))
     t0 = time.time()
-    with ProcessPoolExecutor(max_workers=16) as ex:
+    with ProcessPoolExecutor(max_workers=16, max_tasks_per_child=1) as ex:
         res = list(ex.map(run_one, jobs))
     bad = 0
     for (m, _, benign), r in zip(jobs, res):
